@@ -60,7 +60,21 @@ pub fn permute_file(file: &GFile, perm: &[usize]) -> GFile {
 ///    accepted, every order must still give the same outcome.
 pub fn family(rng: &mut Rng) -> (Vec<String>, &'static str) {
     const VALUES: &[&str] = &["#null", "1", "2", "\"a\"", "#true", "[]", "[1]", "@m", "(source-text @m)", "#null", "1"];
-    let which = rng.below(9);
+    let which = rng.below(10);
+    if which == 9 {
+        // escape hatch: a list / set comprehension or literal whose *element* reads a scoped
+        // variable, in an eagerly evaluated position (rejected at load time today)
+        let eager = *rng.pick(&[
+            "for zz_j in [ @m.zz_v for zz_y in [1] ] { attr (zz_n) hit = zz_j }",
+            "for zz_j in [ zz_y for zz_y in [ @m.zz_v for zz_z in [1, 2] ] ] { attr (zz_n) hit = zz_j }",
+            "if (is-empty [ @m.zz_v for zz_y in [1] ]) { attr (zz_n) hit = 0 } else { attr (zz_n) hit = 1 }",
+            "scan (join [ @m.zz_v for zz_y in [1] ]) { \"x\" { attr (zz_n) hit = $0 } }",
+            "attr (zz_n) hit = [ zz_j for zz_j in { @m.zz_v for zz_y in [1] } ]",
+            "for zz_j in [ @m.zz_v ] { attr (zz_n) hit = zz_j }",
+        ]);
+        let st = vec![format!("(module) @m {{ node zz_n {} }}", eager), "(module) @m { let @m.zz_v = \"x\" }".to_string(), "(module) @m { node zz_other attr (zz_other) v = @m.zz_v }".to_string()];
+        return (st, "escape_scoped_element_of_a_comprehension_in_an_eager_position");
+    }
     if which == 7 {
         // a dependency chain of 130-260 scoped variables, one per statement of the source, each
         // a call that reads its left neighbour; one stanza reads the far end, one reads them all
